@@ -14,7 +14,7 @@ import (
 
 func init() {
 	sim.Register(&sim.Prop{
-		ID: "C02", Run: runC02, QuickRuns: 150000, ThoroughRuns: 3000000,
+		ID: "C02", Run: runC02, QuickRuns: 150000, ThoroughRuns: 8000000,
 		Rule:       "Each run: 1..8 well-formed typed value trees (all 11 types, the 11x11 key/value pairs swept over the batch, containers of 0/1/2/many, fixed- and variable-size elements, chains nested up to 63, strings from 0 bytes to beyond the reader's buffer) encoded back to back with keyed raw chunks in between and keyed trailing bytes, delivered by a simulated Source (all fragmentation profiles, zero reads, last bytes together with io.EOF) to one stream-fed skipper (BufferReader.Skip / SkipDecoder.Next over bufiox.DefaultReader, ReaderSkipDecoder.Next directly over the Source), interleaved with Release, ordinary reads and pooled-decoder reuse; the flat bytes also go to BytesSkipDecoder and Binary.Skip. Oracle: reference encoder length/bytes, ReadLen delta, Source cursor (no read-ahead).",
 		Components: realComponents,
 		Probes:     []string{"value_larger_than_buffer", "value_last_bytes_with_eof", "eof_right_after_value", "depth_ge_32", "rsd_grow_with_prefix", "decoder_reused_from_pool", "skip_after_release", "pool_decoy_failed_use"},
